@@ -34,6 +34,7 @@ type c12Case struct {
 	Size  int64  `json:"size"`  // size of the range
 	Label string `json:"label"`
 	Seed  uint32 `json:"seed"`
+	LSS   int    `json:"lss,omitempty"` // 4096: a disk with 4096-byte logical sectors (fat32 only; squashfs always uses 4096)
 }
 
 var fsTypes = map[string]filesystem.Type{"fat12": filesystem.TypeFat12, "fat16": filesystem.TypeFat16, "fat32": filesystem.TypeFat32,
@@ -144,6 +145,14 @@ func genC12(t *rapid.T) any {
 		}
 	}
 	c.Label = rapid.SampledFrom([]string{"", "DATA", "BOOT DISK", "MYLABEL1234", "a"}).Draw(t, "label")
+	if c.T == "fat32" && c.Place != "mbr" && rapid.IntRange(0, 2).Draw(t, "lss4k") == 0 {
+		// FAT32 is the one writable type that accepts 4096-byte sectors
+		c.LSS = 4096
+		c.Size = c.Size / 4096 * 4096
+		if c.Stale != "" && c.Stale != "garbage" {
+			c.Stale = "garbage" // the other types refuse this sector size, they cannot have been there
+		}
+	}
 	return c
 }
 
@@ -194,7 +203,7 @@ func (e *c12Env) makeFS(t, label string, probe []byte) error {
 		return fmt.Errorf("no partition table on reopen")
 	}
 	dk.LogicalBlocksize = c12LBS(t)
-	if t == "squashfs" && e.lss == 4096 {
+	if (t == "squashfs" || t == "fat32") && e.lss == 4096 {
 		dk.LogicalBlocksize = 4096
 	}
 	fs, err := dk.CreateFilesystem(disk.FilesystemSpec{Partition: e.partNo, FSType: fsTypes[t], VolumeLabel: label})
@@ -232,8 +241,11 @@ func execC12(ci any) (r hx.Result) {
 	r.Class("type:" + c.T)
 	r.Class("place:" + c.Place)
 	lss := 512
-	if c.T == "squashfs" {
+	if c.T == "squashfs" || c.LSS == 4096 {
 		lss = 4096
+	}
+	if c.LSS == 4096 {
+		r.Class("lss:4096")
 	}
 	// disk layout: [table][p1][p2][p3][backup]; the target partition gets c.Size, the others 1 MiB
 	align := int64(1 << 20)
